@@ -881,7 +881,30 @@ func runC18(ctx *common.Ctx) error {
 	}
 
 	// ---- D. jail latency (own server; wall clock: only lower bounds are asserted) ----
-	if err := x.jail(thorough); err != nil {
+	if err := x.jail(thorough, 200*time.Millisecond, false); err != nil {
+		return err
+	}
+	// the CONFIGURED time counts: one round with a jail time above one second (only the lower bound is asserted: the
+	// property is "not answered before the jail time has passed"; upper bounds on the wall clock would be flaky)
+	if err := x.jail(thorough, 1300*time.Millisecond, true); err != nil {
+		return err
+	}
+	if thorough {
+		if err := x.jail(thorough, 2500*time.Millisecond, true); err != nil {
+			return err
+		}
+	}
+
+	// ---- E. user IDs: arbitrary IDs own separate storage; removing a user removes that user's files only ----
+	if err := x.idIsolation(); err != nil {
+		return err
+	}
+	if err := x.removeUserFiles(); err != nil {
+		return err
+	}
+
+	// ---- F. the library's reference connector (connector.Dummy): credential matrix ----
+	if err := x.dummyCredentials(); err != nil {
 		return err
 	}
 
@@ -903,9 +926,9 @@ func stopBounded(s *srv.Server) {
 	}
 }
 
-func (x *hs) jail(thorough bool) error {
+// jail runs the login scripts against a server with the given configured jail time (onlyFirst: just the first script).
+func (x *hs) jail(thorough bool, jailTime time.Duration, onlyFirst bool) error {
 	res := x.ctx.Res
-	jailTime := 200 * time.Millisecond
 	const eps = 5 * time.Millisecond
 	var su []srv.User
 	for _, u := range users[:2] {
@@ -937,8 +960,11 @@ func (x *hs) jail(thorough bool) error {
 	if thorough {
 		scripts = append(scripts, []att{bad(1), bad(2), bad(1), bad(2), bad(1), bad(2), bad(1), bad(2), bad(1), good}) // three rounds
 	}
+	if onlyFirst {
+		scripts = scripts[:1]
+	}
 	for si, sc := range scripts {
-		scen := fmt.Sprintf("jail #%d", si)
+		scen := fmt.Sprintf("jail #%d (configured %v)", si, jailTime)
 		cl := map[int]*conn{}
 		gen := 0
 		streak := 0
@@ -962,7 +988,7 @@ func (x *hs) jail(thorough bool) error {
 			if jailed {
 				sinceThird := time.Since(lastFailSent)
 				res.Count("jail-waits")
-				res.Nontrivial(fmt.Sprintf("jail/%d", si))
+				res.Nontrivial(fmt.Sprintf("jail/%v/%d", jailTime, si))
 				if sinceThird < jailTime-eps {
 					res.Fail("jail next-attempt-answered-early",
 						fmt.Sprintf("after three consecutive failed logins the next attempt was answered %v after the third failure was sent (jail time %v; the attempt itself took %v); %s", sinceThird, jailTime, elapsed, strings.Join(x.log, " | ")),
